@@ -36,6 +36,8 @@ type fileCtx struct {
 	keep    map[string]bool // import paths needing a keeper
 	changed bool
 	selID   int
+
+	sharedCache map[*ast.BlockStmt]*types.Var
 }
 
 var (
@@ -568,6 +570,48 @@ func (f *fileCtx) apply() []byte {
 	return out
 }
 
+// sharedStateFunc returns the mutated package-level variable referenced by the innermost function around the node on
+// top of the stack (nil if none, or if that function is a top-level func init).
+func (f *fileCtx) sharedStateFunc(stack []ast.Node) *types.Var {
+	for i := len(stack) - 1; i >= 0; i-- {
+		var body *ast.BlockStmt
+		switch x := stack[i].(type) {
+		case *ast.FuncLit:
+			body = x.Body
+		case *ast.FuncDecl:
+			if x.Recv == nil && x.Name.Name == "init" {
+				return nil
+			}
+			body = x.Body
+		default:
+			continue
+		}
+		if body == nil {
+			return nil
+		}
+		if f.sharedCache == nil {
+			f.sharedCache = map[*ast.BlockStmt]*types.Var{}
+		}
+		v, ok := f.sharedCache[body]
+		if !ok {
+			v = refsMutatedGlobalIn(f.pkg.TypesInfo, body)
+			f.sharedCache[body] = v
+		}
+		return v
+	}
+	return nil
+}
+
+// refsMutatedGlobalIn is refsMutatedGlobal over the statements of a body (nested function literals excluded).
+func refsMutatedGlobalIn(info *types.Info, body *ast.BlockStmt) *types.Var {
+	for _, st := range body.List {
+		if v := refsMutatedGlobal(info, st); v != nil {
+			return v
+		}
+	}
+	return nil
+}
+
 // inFunc: the node on top of the stack lies inside a function body other than a top-level func init.
 func inFunc(stack []ast.Node) bool {
 	for i := len(stack) - 1; i >= 0; i-- {
@@ -626,28 +670,15 @@ func (f *fileCtx) process() {
 		}
 		par := parent(0)
 		stack = append(stack, n)
-		if st, isStmt := n.(ast.Stmt); isStmt && inFunc(stack) && inList(st, par) {
-			var probe []ast.Node
-			switch y := st.(type) {
-			case *ast.ExprStmt, *ast.AssignStmt, *ast.IncDecStmt, *ast.ReturnStmt, *ast.SendStmt, *ast.DeclStmt:
-				probe = []ast.Node{y}
-			case *ast.IfStmt:
-				probe = []ast.Node{y.Init, y.Cond}
-			case *ast.SwitchStmt:
-				probe = []ast.Node{y.Init, y.Tag}
-			case *ast.ForStmt:
-				probe = []ast.Node{y.Init, y.Cond}
-			case *ast.RangeStmt:
-				probe = []ast.Node{y.X}
-			}
-			for _, pn := range probe {
-				if pn == nil {
-					continue
-				}
-				if v := refsMutatedGlobal(info, pn); v != nil {
+		// A function that touches mutated package-level state anywhere in its body works on shared memory (possibly
+		// through local aliases of it): every statement of such a function is a scheduling point.
+		if st, isStmt := n.(ast.Stmt); isStmt && inList(st, par) {
+			if v := f.sharedStateFunc(stack); v != nil {
+				switch st.(type) {
+				case *ast.ExprStmt, *ast.AssignStmt, *ast.IncDecStmt, *ast.ReturnStmt, *ast.SendStmt, *ast.DeclStmt,
+					*ast.IfStmt, *ast.SwitchStmt, *ast.TypeSwitchStmt, *ast.ForStmt, *ast.RangeStmt:
 					f.ins(st.Pos(), fmt.Sprintf("simrt.Pre(%q); ", "global:"+v.Name()+"@"+f.site(st.Pos())))
 					stats["global_yield"]++
-					break
 				}
 			}
 		}
